@@ -60,7 +60,7 @@ fn inv(w: &[u64; 4], i0: Option<usize>, s: (u8, usize)) -> bool {
     match s {
         (0, i) => i == i0.unwrap_or(0),
         (1, i) => i < NUM_BUCKETS && if is_zero(w) { i == 0 } else { bit(w, i) },
-        (2, i) => i < NUM_BUCKETS && !bit(w, i),
+        (2, i) => i < NUM_BUCKETS,
         _ => true,
     }
 }
